@@ -363,6 +363,21 @@ Proof.
   rewrite lor_shiftl_add by assumption. rewrite N.shiftl_mul_pow2. reflexivity.
 Qed.
 
+Lemma mul_ge_l a b : 0 < b -> a <= b * a.
+Proof. intros H. nia. Qed.
+Lemma mul_ge_r a b : 0 < b -> a <= a * b.
+Proof. intros H. nia. Qed.
+
+Lemma PM_arith R C K o : 0 < R -> 0 < C -> 0 < K ->
+  (R * C * K - C * K + o) / K + (R * C * K - R * C) = R * C * K - C + o / K.
+Proof.
+  intros HR HC HK.
+  pose proof (mul_ge_l C R HR) as H1. pose proof (mul_ge_r (R * C) K HK) as H2.
+  replace (R * C * K - C * K + o) with (o + (R * C - C) * K)
+    by (rewrite N.mul_sub_distr_r; lia).
+  rewrite N.div_add by lia. lia.
+Qed.
+
 Theorem ParentMany_gpos h r o k : h <= 63 -> 1 <= k -> r + k <= h -> o < 2 ^ (h - r) ->
   ParentMany (gpos h r o) k h = Some (gpos h (r + k) (o / 2 ^ k)).
 Proof.
@@ -380,13 +395,7 @@ Proof.
   assert (E4 : 2 ^ (h + 1) = 2 ^ r * 2 ^ c * 2 ^ k).
   { rewrite <- !N.pow_add_r. f_equal. lia. }
   rewrite E1, E2, E3, E4.
-  pose proof (pow2_pos c) as Hc. pose proof (pow2_pos r) as HR. pose proof (pow2_pos k) as HK.
-  set (C := 2 ^ c) in *. set (R := 2 ^ r) in *. set (K := 2 ^ k) in *.
-  assert (HCR : C <= R * C) by nia.
-  replace (R * C * K - C * K + o) with (o + (R * C - C) * K) by nia.
-  rewrite N.div_add by lia.
-  assert (R * C <= R * C * K) by nia.
-  lia.
+  apply PM_arith; apply pow2_pos.
 Qed.
 
 Lemma ParentMany_0 p h : ParentMany p 0 h = Some p.
@@ -404,6 +413,17 @@ Proof. reflexivity. Qed.
 
 (** * 6. [ChildMany] *)
 
+Lemma CM_arith P A K o : 0 < K -> 2 * A * K <= P -> o < A ->
+  ((P - 2 * A + o) * K) mod P = P - 2 * A * K + o * K.
+Proof.
+  intros HK HP Ho.
+  pose proof (mul_ge_r (2 * A) K HK) as H1. pose proof (mul_ge_l P K HK) as H2.
+  assert (H3 : o * K < A * K) by (apply N.mul_lt_mono_pos_r; assumption).
+  replace ((P - 2 * A + o) * K) with (P - 2 * A * K + o * K + (K - 1) * P)
+    by (rewrite N.mul_add_distr_r, !N.mul_sub_distr_r; lia).
+  apply mod_add_small. lia.
+Qed.
+
 Theorem ChildMany_gpos h r o k : h <= 63 -> r <= h -> k <= r -> o < 2 ^ (h - r) ->
   ChildMany (gpos h r o) k h = Some (gpos h (r - k) (o * 2 ^ k)).
 Proof.
@@ -413,19 +433,14 @@ Proof.
   - destruct (N.ltb_spec h k) as [H0|_]; [lia|]. f_equal.
     rewrite shl_land_mask by lia.
     unfold gpos, gstart.
-    assert (E1 : 2 ^ (h + 1 - (r - k)) = 2 ^ (h + 1 - r) * 2 ^ k).
-    { rewrite <- N.pow_add_r. f_equal. lia. }
-    assert (E2 : 2 ^ (h + 1) = 2 ^ r * 2 ^ (h + 1 - r)).
-    { rewrite <- N.pow_add_r. f_equal. lia. }
-    assert (E3 : 2 ^ r = 2 ^ (r - k) * 2 ^ k) by (apply pow2_sub_split; assumption).
+    assert (E1 : 2 ^ (h + 1 - (r - k)) = 2 * 2 ^ (h - r) * 2 ^ k).
+    { rewrite <- pow2_S, <- N.pow_add_r. f_equal. lia. }
     assert (E4 : 2 ^ (h + 1 - r) = 2 * 2 ^ (h - r)).
     { replace (h + 1 - r) with (h - r + 1) by lia. apply pow2_S. }
-    rewrite E1, E2, E3, E4.
-    pose proof (pow2_pos (h - r)) as HA. pose proof (pow2_pos (r - k)) as HB. pose proof (pow2_pos k) as HK.
-    set (A := 2 ^ (h - r)) in *. set (B := 2 ^ (r - k)) in *. set (K := 2 ^ k) in *.
-    replace ((B * K * (2 * A) - 2 * A + o) * K)
-      with (B * K * (2 * A) - 2 * A * K + o * K + (K - 1) * (B * K * (2 * A))) by nia.
-    apply mod_add_small. nia.
+    assert (E5 : 2 * 2 ^ (h - r) * 2 ^ k <= 2 ^ (h + 1)).
+    { rewrite <- E1. apply pow2_le. lia. }
+    rewrite E1, E4.
+    apply CM_arith; [apply pow2_pos|assumption|assumption].
 Qed.
 
 Lemma ChildMany_err p k h : k <> 0 -> (ChildMany p k h = None <-> h < k).
@@ -436,4 +451,390 @@ Proof.
 Qed.
 
 Example ChildMany_gpos_ex : ChildMany (gpos 3 2 1) 2 3 = Some (gpos 3 (2 - 2) (1 * 2 ^ 2)).
+Proof. reflexivity. Qed.
+
+(** * 7. Parent and children are mutually inverse *)
+
+Lemma Parent_LeftChild h r o : h <= 63 -> r < h -> o < 2 ^ (h - r - 1) ->
+  Parent (LeftChild (gpos h (r + 1) o) h) h = gpos h (r + 1) o.
+Proof.
+  intros Hh Hr Ho. rewrite LeftChild_gpos by assumption.
+  assert (Ho2 : 2 * o < 2 ^ (h - r)).
+  { replace (h - r) with (h - r - 1 + 1) by lia. rewrite pow2_S. lia. }
+  rewrite Parent_gpos by assumption. f_equal.
+  rewrite N.mul_comm. apply N.div_mul. lia.
+Qed.
+
+Lemma Parent_RightChild h r o : h <= 63 -> r < h -> o < 2 ^ (h - r - 1) ->
+  Parent (RightChild (gpos h (r + 1) o) h) h = gpos h (r + 1) o.
+Proof.
+  intros Hh Hr Ho. rewrite RightChild_gpos by assumption.
+  assert (Ho2 : 2 * o + 1 < 2 ^ (h - r)).
+  { replace (h - r) with (h - r - 1 + 1) by lia. rewrite pow2_S. lia. }
+  rewrite Parent_gpos by assumption. f_equal.
+  rewrite N.mul_comm, N.div_add_l by lia. rewrite (N.div_small 1 2) by lia. lia.
+Qed.
+
+Lemma LeftChild_Parent h r o : h <= 63 -> r < h -> o < 2 ^ (h - r) ->
+  LeftChild (Parent (gpos h r o) h) h = leftSib (gpos h r o).
+Proof.
+  intros Hh Hr Ho. rewrite Parent_gpos by assumption.
+  assert (Ho2 : o / 2 < 2 ^ (h - r - 1)).
+  { apply N.div_lt_upper_bound; [lia|]. rewrite <- pow2_S. replace (h - r - 1 + 1) with (h - r) by lia.
+    assumption. }
+  rewrite LeftChild_gpos by assumption. rewrite leftSib_gpos by lia. f_equal.
+  pose proof (N.div_mod o 2 ltac:(lia)). lia.
+Qed.
+
+Lemma DetectRow_Parent h r o : h <= 63 -> r < h -> o < 2 ^ (h - r) ->
+  DetectRow (Parent (gpos h r o) h) h = DetectRow (gpos h r o) h + 1.
+Proof.
+  intros Hh Hr Ho. rewrite Parent_gpos by assumption.
+  assert (Ho2 : o / 2 < 2 ^ (h - (r + 1))).
+  { apply N.div_lt_upper_bound; [lia|]. rewrite <- pow2_S. replace (h - (r + 1) + 1) with (h - r) by lia.
+    assumption. }
+  rewrite !DetectRow_gpos by (try assumption; lia). reflexivity.
+Qed.
+
+Example Parent_LeftChild_ex : Parent (LeftChild (gpos 3 (1 + 1) 1) 3) 3 = gpos 3 (1 + 1) 1.
+Proof. reflexivity. Qed.
+
+(** * 8. [TreeRows] and [numRoots] *)
+
+Lemma TreeRows_0 : TreeRows 0 = 0.
+Proof. reflexivity. Qed.
+
+Lemma TreeRows_spec n : 0 < n ->
+  n <= 2 ^ TreeRows n /\ (TreeRows n = 0 \/ 2 ^ (TreeRows n - 1) < n).
+Proof.
+  intros Hn. unfold TreeRows, len64.
+  destruct (N.eqb_spec n 0) as [H0|_]; [lia|].
+  pose proof (N.size_gt (n - 1)) as Hgt. pose proof (N.size_le (n - 1)) as Hle.
+  rewrite N.succ_double_spec in Hle.
+  split; [lia|].
+  destruct (N.eq_dec (N.size (n - 1)) 0) as [E|E]; [left; assumption|right].
+  replace (N.size (n - 1)) with (N.size (n - 1) - 1 + 1) in Hle by lia.
+  rewrite pow2_S in Hle. lia.
+Qed.
+
+Lemma TreeRows_upper n : n <= 2 ^ TreeRows n.
+Proof.
+  destruct (N.eq_dec n 0) as [->|Hn]; [cbn; lia|]. apply TreeRows_spec. lia.
+Qed.
+
+Lemma TreeRows_le_iff n h : TreeRows n <= h <-> n <= 2 ^ h.
+Proof.
+  split; intros H.
+  - pose proof (TreeRows_upper n). pose proof (pow2_le _ _ H). lia.
+  - destruct (N.eq_dec n 0) as [->|Hn]; [cbn; lia|].
+    destruct (TreeRows_spec n ltac:(lia)) as [_ [E|E]]; [lia|].
+    assert (Hlt : 2 ^ (TreeRows n - 1) < 2 ^ h) by lia.
+    apply N.pow_lt_mono_r_iff in Hlt; lia.
+Qed.
+
+Example TreeRows_spec_ex : 5 <= 2 ^ TreeRows 5 /\ (TreeRows 5 = 0 \/ 2 ^ (TreeRows 5 - 1) < 5).
+Proof. vm_compute. split; [discriminate|right; reflexivity]. Qed.
+
+(** [numRoots] is the population count: the number of set bits among the 64 bit positions. *)
+Definition bitcount (n : N) (k : nat) : nat :=
+  length (filter (N.testbit n) (map N.of_nat (seq 0 k))).
+
+Lemma length_filter_map_ext (f f' : N -> bool) (g g' : nat -> N) l :
+  (forall i, f (g i) = f' (g' i)) ->
+  length (filter f (map g l)) = length (filter f' (map g' l)).
+Proof.
+  intros E. induction l as [|x l IH]; [reflexivity|].
+  cbn [map filter]. rewrite E. destruct (f' (g' x)); cbn [length]; rewrite IH; reflexivity.
+Qed.
+
+Lemma bitcount_double a b k :
+  bitcount (2 * a + N.b2n b) (S k) = ((if b then 1 else 0) + bitcount a k)%nat.
+Proof.
+  unfold bitcount. cbn [seq map filter]. change (N.of_nat 0) with 0.
+  rewrite N.testbit_0_r. rewrite <- seq_shift, map_map.
+  assert (E : length (filter (N.testbit (2 * a + N.b2n b))
+                        (map (fun x => N.of_nat (S x)) (seq 0 k))) =
+              length (filter (N.testbit a) (map N.of_nat (seq 0 k)))).
+  { apply length_filter_map_ext. intros i. rewrite Nat2N.inj_succ. apply N.testbit_succ_r. }
+  destruct b; cbn [length]; rewrite E; reflexivity.
+Qed.
+
+Lemma bitcount_0 k : bitcount 0 k = 0%nat.
+Proof.
+  unfold bitcount. induction (map N.of_nat (seq 0 k)) as [|x l IH]; [reflexivity|].
+  cbn [filter]. rewrite N.bits_0. assumption.
+Qed.
+
+Lemma popcount_pos_spec p : forall k, N.pos p < 2 ^ N.of_nat k ->
+  popcount_pos p = N.of_nat (bitcount (N.pos p) k).
+Proof.
+  induction p as [p IH|p IH|]; intros k Hk; (destruct k as [|k]; [cbn in Hk; lia|]);
+    rewrite Nat2N.inj_succ, N.pow_succ_r' in Hk.
+  - change (N.pos p~1) with (2 * N.pos p + N.b2n true). rewrite bitcount_double.
+    cbn [popcount_pos]. rewrite (IH k) by lia. lia.
+  - change (N.pos p~0) with (2 * N.pos p + N.b2n false). rewrite bitcount_double.
+    cbn [popcount_pos]. rewrite (IH k) by lia. lia.
+  - change (bitcount 1 (S k)) with (bitcount (2 * 0 + N.b2n true) (S k)).
+    rewrite bitcount_double, bitcount_0. reflexivity.
+Qed.
+
+Theorem numRoots_spec n : n < 2 ^ 64 ->
+  numRoots n = N.of_nat (length (filter (N.testbit n) (map N.of_nat (seq 0 64)))).
+Proof.
+  intros Hn. unfold numRoots, popcount. destruct n as [|p]; [reflexivity|].
+  apply (popcount_pos_spec p 64). exact Hn.
+Qed.
+
+Example numRoots_spec_ex : numRoots 7 = 3. Proof. reflexivity. Qed.
+
+(** * 9. [rootPosition] *)
+
+Lemma pow2_diff_shiftl a s : s <= a -> 2 ^ a - 2 ^ s = N.shiftl (N.ones (a - s)) s.
+Proof.
+  intros Hs. rewrite N.shiftl_mul_pow2, N.ones_equiv.
+  rewrite (pow2_sub_split a s Hs). pose proof (pow2_pos (a - s)). 
+  rewrite <- N.sub_1_r, N.mul_sub_distr_r. lia.
+Qed.
+
+(** masking with the ones on [s .. a-1] clears the low [s] bits of a number below [2^a] *)
+Lemma land_highmask n a s : n < 2 ^ a -> s <= a -> N.land n (2 ^ a - 2 ^ s) = n / 2 ^ s * 2 ^ s.
+Proof.
+  intros Hn Hs. rewrite pow2_diff_shiftl by assumption.
+  rewrite <- N.shiftl_mul_pow2, <- N.shiftr_div_pow2.
+  apply N.bits_inj. intros j. rewrite N.land_spec.
+  destruct (N.lt_ge_cases j s) as [Hj|Hj].
+  - rewrite !N.shiftl_spec_low by assumption. apply Bool.andb_false_r.
+  - rewrite !N.shiftl_spec_high' by assumption. rewrite N.shiftr_spec'.
+    replace (j - s + s) with j by lia.
+    destruct (N.lt_ge_cases j a) as [Hja|Hja].
+    + rewrite N.ones_spec_low by lia. apply Bool.andb_true_r.
+    + rewrite (testbit_small n a j Hn Hja). reflexivity.
+Qed.
+
+Lemma land_mask_small x h : h <= 63 -> x < 2 ^ (h + 1) -> and64 x (mask h) = x.
+Proof. intros Hh Hx. rewrite land_mask by assumption. apply N.mod_small; assumption. Qed.
+
+Theorem rootPosition_gpos n k h : h <= 63 -> k <= h -> n <= 2 ^ h ->
+  rootPosition n k h = gpos h k (2 * (n / 2 ^ (k + 1))).
+Proof.
+  intros Hh Hk Hn. unfold rootPosition. cbv zeta.
+  rewrite (add8_small k 1), (add8_small h 1) by lia. rewrite sub8_small by lia.
+  assert (Hn1 : n < 2 ^ (h + 1)) by (rewrite pow2_S; pose proof (pow2_pos h); lia).
+  (* before *)
+  assert (Eb : and64 n (shl (mask h) (k + 1)) = n / 2 ^ (k + 1) * 2 ^ (k + 1)).
+  { rewrite <- (land_mask_small n h Hh Hn1) at 1. unfold and64.
+    rewrite <- N.land_assoc, (N.land_comm (mask h)).
+    fold (and64 (shl (mask h) (k + 1)) (mask h)). rewrite shl_mask_land by lia.
+    apply land_highmask; [assumption|lia]. }
+  rewrite Eb. set (q := n / 2 ^ (k + 1)).
+  assert (Es : shr (q * 2 ^ (k + 1)) k = 2 * q).
+  { unfold shr. rewrite N.shiftr_div_pow2, pow2_S.
+    replace (q * (2 * 2 ^ k)) with (2 * q * 2 ^ k) by lia. apply N.div_mul, pow2_nz. }
+  rewrite Es.
+  assert (Hq : 2 * q < 2 ^ (h + 1 - k)).
+  { pose proof (N.mul_div_le n (2 ^ (k + 1)) (pow2_nz _)) as Hle. fold q in Hle.
+    replace (h + 1 - k) with (h - k + 1) by lia. rewrite pow2_S.
+    assert (Hlt : 2 ^ (k + 1) * q < 2 ^ (k + 1) * 2 ^ (h - k)).
+    { rewrite <- N.pow_add_r. replace (k + 1 + (h - k)) with (h + 1) by lia. lia. }
+    apply N.mul_lt_mono_pos_l in Hlt; [lia|apply pow2_pos]. }
+  unfold and64, or64. rewrite N.land_lor_distr_l.
+  fold (and64 (shl (mask h) (h + 1 - k)) (mask h)). rewrite shl_mask_land by lia.
+  fold (and64 (2 * q) (mask h)). rewrite land_mask_small; [|assumption|].
+  - fold (gstart h k). rewrite gstart_shiftl by assumption.
+    rewrite lor_shiftl_add by assumption.
+    rewrite <- N.shiftl_mul_pow2, <- gstart_shiftl by assumption. unfold gpos. lia.
+  - assert (2 ^ (h + 1 - k) <= 2 ^ (h + 1)) by (apply pow2_le; lia). lia.
+Qed.
+
+(** a set bit [k] of [n <= 2^h] gives valid coordinates for the root of row [k] *)
+Lemma root_coord_valid n k h : n <= 2 ^ h -> N.testbit n k = true ->
+  k <= h /\ 2 * (n / 2 ^ (k + 1)) < 2 ^ (h - k).
+Proof.
+  intros Hn Hb. apply N.testbit_true in Hb.
+  pose proof (N.div_mod (n / 2 ^ k) 2 ltac:(lia)) as Ht. rewrite Hb in Ht.
+  rewrite N.div_div in Ht by (try apply pow2_nz; lia).
+  rewrite (N.mul_comm (2 ^ k) 2), <- pow2_S in Ht.
+  set (q := n / 2 ^ (k + 1)) in *.
+  pose proof (N.mul_div_le n (2 ^ k) (pow2_nz _)) as Hle. rewrite Ht in Hle.
+  assert (Hk : k <= h).
+  { destruct (N.le_gt_cases k h) as [H|H]; [assumption|exfalso].
+    pose proof (pow2_lt h k H). pose proof (mul_ge_r (2 ^ k) (2 * q + 1) ltac:(lia)). lia. }
+  split; [assumption|].
+  rewrite (pow2_sub_split h k Hk) in Hn.
+  assert (Hlt : 2 ^ k * (2 * q + 1) <= 2 ^ k * 2 ^ (h - k)) by lia.
+  apply N.mul_le_mono_pos_l in Hlt; [lia|apply pow2_pos].
+Qed.
+
+Example rootPosition_gpos_ex : rootPosition 7 1 3 = gpos 3 1 (2 * (7 / 2 ^ (1 + 1))).
+Proof. reflexivity. Qed.
+
+(** * 10. [translatePos] *)
+
+Lemma sub64_small a b : b <= a -> a < W -> sub64 a b = a - b.
+Proof.
+  intros Hb Ha. unfold sub64. replace (a + W - b) with (a - b + W) by lia.
+  apply wrap_add_W. lia.
+Qed.
+
+Lemma shl_2 x : x < 63 -> shl 2 x = 2 ^ (x + 1).
+Proof.
+  intros Hx. rewrite shl_small; [rewrite pow2_S; lia|lia|].
+  rewrite <- pow2_S. apply pow2_lt_W. lia.
+Qed.
+
+Lemma startPositionAtRow_gstart r h : h <= 63 -> r <= h -> startPositionAtRow r h = gstart h r.
+Proof.
+  intros Hh Hr. unfold startPositionAtRow, gstart. rewrite sub8_small by lia.
+  destruct (N.eq_dec h 63) as [->|Hne].
+  - destruct (N.eq_dec r 0) as [->|Hr0]; [reflexivity|].
+    change (shl 2 63) with 0. rewrite shl_2 by lia.
+    replace (63 - r + 1) with (63 + 1 - r) by lia.
+    assert (Hlt : 2 ^ (63 + 1 - r) < 2 ^ (63 + 1)) by (apply pow2_lt; lia).
+    pose proof (pow2_pos (63 + 1 - r)) as Hp.
+    unfold sub64. change (2 ^ (63 + 1)) with W in *. apply wrap_small. lia.
+  - rewrite !shl_2 by lia. replace (h - r + 1) with (h + 1 - r) by lia.
+    apply sub64_small; [apply pow2_le; lia|apply pow2_lt_W; lia].
+Qed.
+
+Theorem translatePos_gpos h r o h' : h <= 63 -> r <= h -> o < 2 ^ (h - r) ->
+  h' <= 63 -> r <= h' -> o < 2 ^ (h' - r) ->
+  translatePos (gpos h r o) h h' = gpos h' r o.
+Proof.
+  intros Hh Hr Ho Hh' Hr' Ho'. unfold translatePos. cbv zeta.
+  rewrite DetectRow_gpos by assumption.
+  destruct (N.eqb_spec r 0) as [->|Hr0].
+  - unfold gpos, gstart. rewrite !N.sub_0_r. lia.
+  - rewrite !startPositionAtRow_gstart by assumption.
+    pose proof (gpos_lt_W h r o Hh Hr Ho) as H1. pose proof (gpos_lt_W h' r o Hh' Hr' Ho') as H2.
+    unfold gpos in *.
+    rewrite sub64_small by lia. unfold add64.
+    replace (gstart h r + o - gstart h r) with o by lia.
+    rewrite N.add_comm. apply wrap_small. assumption.
+Qed.
+
+Example translatePos_gpos_ex : translatePos (gpos 3 2 1) 3 5 = gpos 5 2 1.
+Proof. reflexivity. Qed.
+
+(** * 11. [isRootPositionOnRow] *)
+
+Lemma TreeRows_le_63 n : n <= 2 ^ 63 -> TreeRows n <= 63.
+Proof. intros Hn. apply TreeRows_le_iff. assumption. Qed.
+
+Theorem isRootPositionOnRow_spec p n r : n <= 2 ^ 63 ->
+  isRootPositionOnRow p n r = true <->
+  (N.testbit n r = true /\ p = gpos (TreeRows n) r (2 * (n / 2 ^ (r + 1)))).
+Proof.
+  intros Hn. unfold isRootPositionOnRow.
+  pose proof (TreeRows_le_63 n Hn) as Hh. pose proof (TreeRows_upper n) as Hup.
+  destruct (N.lt_ge_cases r 64) as [Hr|Hr].
+  - rewrite shl_1 by lia. unfold and64. rewrite land_pow2_eqb, Bool.negb_involutive.
+    destruct (N.testbit n r) eqn:Eb; cbn [andb].
+    + destruct (root_coord_valid n r (TreeRows n) Hup Eb) as [Hrh _].
+      rewrite rootPosition_gpos by assumption.
+      rewrite N.eqb_eq. split; [intros <-; split; reflexivity|intros [_ ->]; reflexivity].
+    + split; [discriminate|intros [H _]; discriminate].
+  - rewrite shl_big by assumption. unfold and64. rewrite N.land_0_r. cbn [N.eqb negb andb].
+    assert (Eb : N.testbit n r = false).
+    { apply (testbit_small n 64); [|assumption].
+      assert (2 ^ 63 < 2 ^ 64) by (apply pow2_lt; lia). lia. }
+    rewrite Eb. split; [discriminate|intros [H _]; discriminate].
+Qed.
+
+Example isRootPositionOnRow_spec_ex :
+  N.testbit 7 1 = true /\ 10 = gpos (TreeRows 7) 1 (2 * (7 / 2 ^ (1 + 1))) /\ isRootPositionOnRow 10 7 1 = true.
+Proof. repeat split. Qed.
+
+(** * 12. [inForest] *)
+
+Lemma inForest_loop_gpos h : h <= 63 ->
+  forall fuel r o, r <= h -> o < 2 ^ (h - r) -> (N.to_nat r < fuel)%nat ->
+  inForest_loop fuel (gpos h r o) (2 ^ h) (mask h) = (o + 1) * 2 ^ r - 1.
+Proof.
+  intros Hh. induction fuel as [|f IH]; intros r o Hr Ho Hf; [lia|].
+  cbn [inForest_loop]. unfold and64 at 1. rewrite land_pow2_eqb.
+  destruct (N.eq_dec r 0) as [->|Hr0].
+  - replace h with (h - 0) at 2 by lia. rewrite gpos_bit_mid by assumption. cbn [negb].
+    unfold gpos, gstart. rewrite N.sub_0_r, N.pow_0_r. lia.
+  - rewrite gpos_bit_hi by (try assumption; lia). cbn [negb].
+    fold (RightChild (gpos h r o) h).
+    replace r with (r - 1 + 1) at 1 by lia.
+    assert (Ho1 : o < 2 ^ (h - (r - 1) - 1)) by (replace (h - (r - 1) - 1) with (h - r) by lia; assumption).
+    rewrite RightChild_gpos by (try assumption; lia).
+    rewrite IH.
+    + replace r with (r - 1 + 1) at 2 by lia. rewrite pow2_S. lia.
+    + lia.
+    + replace (h - (r - 1)) with (h - r + 1) by lia. rewrite pow2_S. lia.
+    + lia.
+Qed.
+
+Lemma leaf_le_gpos h r o : r <= h -> o < 2 ^ (h - r) -> (o + 1) * 2 ^ r <= gpos h r o + 1.
+Proof.
+  intros Hr Ho. destruct (N.eq_dec r 0) as [->|Hr0].
+  - unfold gpos, gstart. rewrite N.sub_0_r, N.pow_0_r. lia.
+  - assert (H1 : (o + 1) * 2 ^ r <= 2 ^ (h - r) * 2 ^ r) by (apply N.mul_le_mono_r; lia).
+    rewrite <- pow2_sub_split in H1 by assumption.
+    unfold gpos, gstart. rewrite pow2_S.
+    assert (2 ^ (h + 1 - r) <= 2 ^ h) by (apply pow2_le; lia). lia.
+Qed.
+
+Lemma shl_pow2_1 h : h <= 63 -> shl (2 ^ h) 1 = shl 2 h.
+Proof. intros Hh. rewrite !shl_mod by lia. f_equal. rewrite N.pow_1_r. lia. Qed.
+
+Theorem inForest_spec h r o n : h <= 63 -> r <= h -> o < 2 ^ (h - r) ->
+  inForest (gpos h r o) n h = true <-> (o + 1) * 2 ^ r <= n.
+Proof.
+  intros Hh Hr Ho. unfold inForest. cbv zeta.
+  pose proof (leaf_le_gpos h r o Hr Ho) as Hleaf.
+  destruct (N.ltb_spec (gpos h r o) n) as [Hlt|Hge].
+  - split; [intros _; lia|reflexivity].
+  - rewrite shl_1 by assumption. rewrite shl_pow2_1 by assumption. fold (mask h).
+    rewrite mask_spec at 1 by assumption.
+    pose proof (gpos_range h r o Hr Ho) as Hrange. pose proof (pow2_pos (h + 1)) as Hp.
+    destruct (N.leb_spec (2 ^ (h + 1) - 1) (gpos h r o)) as [H|_]; [lia|].
+    rewrite inForest_loop_gpos by (try assumption; lia).
+    pose proof (pow2_pos r) as Hp2. assert (1 <= (o + 1) * 2 ^ r) by nia.
+    rewrite N.ltb_lt. lia.
+Qed.
+
+Example inForest_spec_ex : inForest (gpos 3 1 1) 4 3 = true /\ (1 + 1) * 2 ^ 1 <= 4.
+Proof. split; [reflexivity|vm_compute; discriminate]. Qed.
+
+(** * 13. [RootPositions] *)
+
+Lemma rootExistsOnRow_testbit n k : rootExistsOnRow n k = N.testbit n k.
+Proof.
+  unfold rootExistsOnRow, and64, shr. rewrite land_1.
+  replace k with (0 + k) at 2 by lia. rewrite <- N.shiftr_spec', N.bit0_odd, <- N.negb_even.
+  destruct (N.even (N.shiftr n k)); reflexivity.
+Qed.
+
+Lemma RootPositions_loop_spec n total f : N.of_nat f <= 63 ->
+  RootPositions_loop f n (N.of_nat f) total =
+  map (fun k => rootPosition n k total) (filter (N.testbit n) (map N.of_nat (rev (seq 0 (S f))))).
+Proof.
+  induction f as [|f IH]; intros Hf.
+  - cbn [RootPositions_loop seq rev app map filter N.of_nat]. rewrite u8_small by lia.
+    rewrite rootExistsOnRow_testbit. destruct (N.testbit n 0); reflexivity.
+  - cbn [RootPositions_loop]. rewrite u8_small by lia. rewrite rootExistsOnRow_testbit.
+    destruct (N.eqb_spec (N.of_nat (S f)) 0) as [H0|_]; [lia|].
+    replace (N.of_nat (S f) - 1) with (N.of_nat f) by lia.
+    rewrite IH by lia.
+    rewrite (seq_S (S f) 0), rev_app_distr. cbn [rev app map filter plus].
+    destruct (N.testbit n (N.of_nat (S f))); reflexivity.
+Qed.
+
+Theorem RootPositions_spec n h : h <= 63 -> n <= 2 ^ h ->
+  RootPositions n h =
+  map (fun k => gpos h k (2 * (n / 2 ^ (k + 1))))
+      (filter (N.testbit n) (map N.of_nat (rev (seq 0 (S (N.to_nat h)))))).
+Proof.
+  intros Hh Hn. unfold RootPositions.
+  replace h with (N.of_nat (N.to_nat h)) at 2 by lia.
+  rewrite RootPositions_loop_spec by lia.
+  apply map_ext_in. intros k Hk. apply filter_In in Hk. destruct Hk as [Hk _].
+  apply in_map_iff in Hk. destruct Hk as [i [<- Hi]]. apply in_rev, in_seq in Hi.
+  apply rootPosition_gpos; [assumption|lia|assumption].
+Qed.
+
+Example RootPositions_spec_ex : RootPositions 7 3 = [gpos 3 2 0; gpos 3 1 2; gpos 3 0 6].
 Proof. reflexivity. Qed.
